@@ -534,6 +534,18 @@ def flatnonzero_facts(mask):
     return pos, m
 
 
+def pow10():
+    """10 ** e for a symbolic exponent e >= 0: an uninterpreted function with its recurrence (P10(0) = 1, P10(e+1) = 10 * P10(e), P10 >= 1)"""
+    c = ctx()
+    P = c.ghost.get("pow10")
+    if P is None:
+        use("10 ** e for symbolic e >= 0 (uninterpreted function with its recurrence)")
+        P = c.ghost["pow10"] = z3.Function("pow10", z3.IntSort(), z3.IntSort())
+        c.assume(P(0) == 1)
+        c.assume(Forall(lambda e: Implies(I(e) >= 0, And(P(I(e) + 1) == 10 * P(I(e)), P(I(e)) >= 1)), triggers=[P], name="pow10.rec"))
+    return P
+
+
 def count_before(mask):
     """K(i) = number of true elements of mask before position i (exclusive prefix sum of the 0/1 mask), together with engine lemma L9
     (pyvc/lemmas.py): K brackets the positions of np.flatnonzero(mask):  pos(K(i)-1) < i <= pos(K(i)), 0 <= K(i) <= count, K(n) = count."""
